@@ -151,6 +151,8 @@ def build_args(it, world, task, with_pred=True):
         else:
             raise Unsupported("argument class %s" % s.cls)
         it.assume(wf_value(world, o))
+        if s.cls == "Interval":
+            it.assume(WF.aux_interval(o))
         it.assume(WF.wf_span(o))
         args.append(o)
     for a, b in zip(args, args[1:]):
@@ -178,12 +180,23 @@ def compute_pred_formula(world, task):
     task.pred_formula = merged_formula(world, setup, fn)
 
 
-def generic_ensures(world, task):
-    def result_kind(args, res):
-        return kind(res) in ("None", "Time", "Interval", "Duration")
+class Env:
+    def __init__(self, world, it):
+        self.pod_table = world.pod_table()
+        self.ghost = it.ghost if it is not None else {}
 
-    def wf_result(args, res):
-        if res is None:
-            return True
-        return wf_value(world, res)
-    return [("result-kind", result_kind, ["C01", "C02"]), ("wf-result", wf_result, ["C02", "C01"])]
+
+def rule_ensures(world, task):
+    from contracts.rule_specs import SPECS
+    sp = SPECS.get(task.name)
+
+    def ensures(it, args, res):
+        out = [("result-kind", ["C01", "C02"], kind(res) in ("None", "Time", "Interval", "Duration")),
+               ("wf-result", ["C02", "C01"], True if res is None else wf_value(world, res))]
+        if kind(res) == "Interval":
+            out.append(("aux-invariant-clock-range", ["C07"], WF.aux_interval(res)))
+        if sp is not None:
+            for name, props, goal in sp(Env(world, it), *(list(args) + [res])):
+                out.append((name, props, goal))
+        return out
+    return ensures
